@@ -116,8 +116,9 @@ LegalFor(op, n) ==
 \* (the four-operand form of endchar: always in simulation, when enumerating only in the
 \* behaviours dedicated to endchar)
 Counts(op) ==
-  LET C == {n \in 0..MaxArgs : LegalFor(op, n)}
-           \cup (IF op = "endchar" /\ (Sim \/ feat = "endchar") THEN {n \in 4..5 : LegalFor(op, n)} ELSE {})
+  LET seac == Sim \/ feat = "endchar"
+      C == {n \in 0..MaxArgs : LegalFor(op, n) /\ (op # "endchar" \/ n < 4 \/ seac)}
+           \cup (IF op = "endchar" /\ seac THEN {n \in 4..5 : LegalFor(op, n)} ELSE {})
       A == {n \in 0..MaxStack : LegalFor(op, n)} IN
   IF C # {} \/ A = {} THEN C ELSE {CHOOSE n \in A : \A k \in A : n <= k}
 \* simulation favours the boundary counts; model checking takes all
